@@ -1,0 +1,178 @@
+//! Read-only accessors for the external verification harness.
+//!
+//! Compiled only with `--features verif`; nothing here changes behaviour.
+
+use indexmap::IndexSet;
+use roaring::RoaringBitmap;
+use std::collections::BTreeMap;
+use ustr::Ustr;
+
+use crate::dfa::{DFA, DFAId, Inp, InpId};
+use crate::parse::{ExprId, HumanSpan, NontermDefn};
+use crate::regex::{Position, Regex, RegexId, RegexInternPool};
+use crate::{CommandId, LiteralId, StateId};
+
+pub fn nonterm_defn_fields(
+    defn: &NontermDefn,
+) -> (Ustr, HumanSpan, Option<(Ustr, HumanSpan)>, ExprId) {
+    (defn.lhs_name, defn.lhs_span, defn.shell, defn.rhs_expr_id)
+}
+
+pub fn regex_id_index(id: RegexId) -> usize {
+    id.0
+}
+
+pub fn regex_pool_lookup(pool: &RegexInternPool, id: RegexId) -> &Regex {
+    pool.lookup(id)
+}
+
+pub fn regex_followpos(regex: &Regex) -> Vec<(Position, Vec<Position>)> {
+    regex
+        .followpos()
+        .iter()
+        .map(|(pos, set)| (*pos, set.iter().collect()))
+        .collect()
+}
+
+pub fn regex_check_ambiguities(regex: &Regex, pool: &RegexInternPool) -> crate::Result<()> {
+    regex.check_ambiguities(pool)
+}
+
+pub fn dfa_inputs(dfa: &DFA) -> Vec<(InpId, Inp)> {
+    dfa.verif_inputs()
+}
+
+pub fn dfa_subdfa(dfa: &DFA, id: DFAId) -> &DFA {
+    dfa.subdfas.lookup(id)
+}
+
+pub fn dfa_all_states(dfa: &DFA) -> Vec<StateId> {
+    dfa.get_all_states().iter().collect()
+}
+
+pub fn dfa_commands(dfa: &DFA) -> Vec<Ustr> {
+    dfa.get_commands().into_iter().collect()
+}
+
+pub fn dfa_subwords(dfa: &DFA, first_id: usize) -> Vec<(DFAId, usize)> {
+    dfa.get_subwords(first_id).into_iter().collect()
+}
+
+pub fn dfa_all_literals(dfa: &DFA, array_start: usize) -> Vec<(LiteralId, Ustr, Ustr)> {
+    dfa.get_all_literals(array_start)
+}
+
+pub fn dfa_subword_transitions_from(dfa: &DFA, from: StateId) -> Vec<(DFAId, StateId)> {
+    dfa.get_subword_transitions_from(from)
+}
+
+pub fn dfa_completion_subwords(
+    dfa: &DFA,
+    first_id: usize,
+    max_fallback_level: usize,
+) -> Vec<BTreeMap<StateId, Vec<usize>>> {
+    dfa.get_completion_subwords(dfa.get_subwords(first_id), max_fallback_level)
+}
+
+/// The seven `needs_*_code` switches of the emitters, in declaration order.
+pub fn dfa_needs(dfa: &DFA) -> [bool; 7] {
+    [
+        dfa.needs_subwords_code(),
+        dfa.needs_top_level_commands_code(),
+        dfa.needs_subword_commands_code(),
+        dfa.needs_top_level_compadds_code(),
+        dfa.needs_subword_compadds_code(),
+        dfa.needs_top_level_star_code(),
+        dfa.needs_subword_star_code(),
+    ]
+}
+
+pub struct TablesDump {
+    pub all_literals: Vec<(LiteralId, Ustr, Ustr)>,
+    pub match_literal: BTreeMap<StateId, BTreeMap<LiteralId, StateId>>,
+    pub match_command: Option<BTreeMap<StateId, BTreeMap<CommandId, StateId>>>,
+    pub match_compadd: Option<BTreeMap<StateId, BTreeMap<CommandId, StateId>>>,
+    pub match_star: Option<Vec<(StateId, StateId)>>,
+    pub max_fallback_level: usize,
+    pub completion_literal: Vec<BTreeMap<StateId, Vec<u32>>>,
+    pub completion_command: Option<Vec<BTreeMap<StateId, Vec<u32>>>>,
+    pub completion_compadd: Option<Vec<BTreeMap<StateId, Vec<usize>>>>,
+    pub shape_hash: u64,
+}
+
+fn bitmap_levels(levels: &[BTreeMap<StateId, RoaringBitmap>]) -> Vec<BTreeMap<StateId, Vec<u32>>> {
+    levels
+        .iter()
+        .map(|level| {
+            level
+                .iter()
+                .map(|(state, ids)| (*state, ids.iter().collect()))
+                .collect()
+        })
+        .collect()
+}
+
+pub fn lookup_tables(
+    dfa: &DFA,
+    id_from_cmd: &[Ustr],
+    array_start: usize,
+    needs_commands_code: bool,
+    needs_compadds_code: bool,
+    needs_star_code: bool,
+) -> TablesDump {
+    let id_from_cmd: IndexSet<Ustr> = id_from_cmd.iter().copied().collect();
+    let tables = crate::tables::get_lookup_tables(
+        dfa,
+        &id_from_cmd,
+        array_start,
+        needs_commands_code,
+        needs_compadds_code,
+        needs_star_code,
+    );
+    let shape_hash = tables.shape_hash();
+    TablesDump {
+        all_literals: tables.all_literals,
+        match_literal: tables.match_transitions.literal,
+        match_command: tables.match_transitions.command,
+        match_compadd: tables.match_transitions.compadd,
+        match_star: tables.match_transitions.star,
+        max_fallback_level: tables.completion_transitions.max_fallback_level,
+        completion_literal: bitmap_levels(&tables.completion_transitions.literal),
+        completion_command: tables
+            .completion_transitions
+            .command
+            .as_deref()
+            .map(bitmap_levels),
+        completion_compadd: tables.completion_transitions.compadd,
+        shape_hash,
+    }
+}
+
+pub fn tables_isomorphic(
+    dfa_left: &DFA,
+    dfa_right: &DFA,
+    id_from_cmd: &[Ustr],
+    array_start: usize,
+    needs_commands_code: bool,
+    needs_compadds_code: bool,
+    needs_star_code: bool,
+) -> bool {
+    let id_from_cmd: IndexSet<Ustr> = id_from_cmd.iter().copied().collect();
+    let left = crate::tables::get_lookup_tables(
+        dfa_left,
+        &id_from_cmd,
+        array_start,
+        needs_commands_code,
+        needs_compadds_code,
+        needs_star_code,
+    );
+    let right = crate::tables::get_lookup_tables(
+        dfa_right,
+        &id_from_cmd,
+        array_start,
+        needs_commands_code,
+        needs_compadds_code,
+        needs_star_code,
+    );
+    left.isomorphic_to(&right)
+}
